@@ -6,6 +6,18 @@ ids = [p['id'] for p in props]
 E = 'exploration'; M = 'model_checking'; F = 'fault_enumeration'
 # id: (level, technique, level text, level_note, design_ref)
 checks = {
+ 'C26': (F, 'crash-point enumeration on the real xgo binary under a ptrace/seccomp tracer: every file-system-mutating system call of the run, process tree killed at its entry and at its exit',
+         'The real cmd/xgo is built from the tree; for each configuration (file kind x original mode x single file/directory) the ordered list of FS-mutating syscalls is recorded, then the run is repeated and SIGKILLed at the entry and at the exit of every call k; after each kill every target path must hold exactly the original or exactly the formatted bytes (and a complete mode), and after a clean run the permission bits are unchanged. Self-tests prove kill-at-entry means not executed and that no process survives.',
+         'Crash model = SIGKILL at syscall boundaries (no power-loss / page-cache model); linux/amd64; running as root, so the read-only-file failure branch is not exercised; expected formatted bytes computed in-process.', '§2 C26'),
+ 'C27': (E, 'bounded-exhaustive enumeration of grammar texts (all escaped literals, operator strings, token sequences, rule-shape menu) x 7 entry points in crash-attributing workers',
+         'Every `doc = <lit>` for all 256 byte escapes in three literal forms, every 2-3 byte string over a 17-symbol operator alphabet, every token sequence up to length 4/5 over 19 tokens, body sequences that reach recursion shapes, and a 146-entry rule-shape menu are compiled through tpl.New/NewEx and parser+cl.New/NewEx; oracle: returns a compiler or an error, no panic/fatal/hang.',
+         'Sources are strings; RetProc parameters are not varied.', '§2 C27'),
+ 'C28': (E, 'bounded-exhaustive enumeration of 1-2 rule grammars (incl. nullable repetitions and left recursion) x all inputs up to 3 tokens, in memory/time-guarded workers, cross-checked by the reference analysis tplref',
+         'All 1-rule grammars up to 3/4 operator nodes and 2-rule grammars up to 2/3 nodes over {\"a\", INT, \",\"} x {seq | * + ? % ++ ref} are compiled; compiled ones are matched on all 40 inputs of <=3 tokens through Parse and ParseExpr; a hang, stack overflow or runaway heap is a violation keyed by the defect class that tplref computes statically (nullable repetition body, left recursion); every compile-time rejection must be explained by left recursion per tplref.',
+         'Termination verdicts come from a per-item 20 s limit and a heap watchdog in a subprocess (generous: terminating matches on these sizes need microseconds).', '§2 C28'),
+ 'C29': (E, 'bounded-exhaustive enumeration of grammars x token inputs against the reference semantics tplref (ordered choice, greedy repetition, ?, %, ++ adjacency, result shapes)',
+         'Every grammar of the C28 space without nullable repetition/left recursion is matched by the real engine on every input of <=3/4 tokens over {a, b, 1, \",\", \"+\"} (plus glued spacings for ++); success/failure, tokens consumed and the complete result tree are compared with tplref. A pair is judged only when every mixture of backtracking and LL(1)-commit gives the same answer (the README is silent on a failed committed alternative); the rest is excluded and counted.',
+         'tplref is written from tpl/README.md; only Compiler.Match without RetProcs; literal alphabet \"a\", INT, \",\".', '§2 C29'),
  'C39': (M, 'stateless model checking of the real Connection under a controlled scheduler: exhaustive enumeration of all schedules up to a preemption bound and all select tie-breaks, with happens-before state caching; per-execution oracle on awaits, wire log and Close',
          'x/jsonrpc2 (conn.go, serve.go, frame.go, jsonrpc2.go) is compiled against the virtual runtime (chan/select/go/sync/atomic/context rewritten at build time). Twelve scenarios through the public API over an in-memory pipe with a scripted peer: concurrent calls, Call||Close, Call||disconnect, blocking handler||cancel||Close, ErrAsyncResponse+Respond||Close, two connections calling back, Notify||Close, unknown/duplicate responses, reused request id, write failure. Every schedule with <=1 (quick) / <=2 (thorough) preemptions is executed; each Await must return exactly once with its own answer or an error, no internal panic, responses per id <= requests per id, Close never returns while a handler runs, nothing stays blocked.',
          'Sequential consistency at synchronisation operations; the two retire/cancel map loops iterate in sorted order; the connection-state-model (BFS) sub-check of the design was not built.', '§2 C39'),
@@ -82,6 +94,8 @@ m = {
  'engines': [
   {'name': 'vrt', 'path': 'engine/vrt/', 'serves_properties': ['C39','C40','C41'], 'kind_free_text': 'virtual runtime + stateless explorer: cooperative scheduler, Go-faithful channels/select, vsync/vatomic/vcontext shims, preemption-bounded DFS over choice sequences, happens-before state caching, schedule record/replay'},
   {'name': 'rewrite', 'path': 'engine/rewrite/', 'serves_properties': ['C39','C40','C41'], 'kind_free_text': 'go/ast source rewriter producing a `go build -overlay` (chan/select/go/sync/atomic/context -> vrt), regenerated from the working tree on every build'},
+  {'name': 'ptracer', 'path': 'engine/ptracer/', 'serves_properties': ['C26'], 'kind_free_text': 'pure-Go ptrace tracer (PTRACE_O_TRACECLONE/FORK, syscall entry/exit stops, optional seccomp RET_TRACE filter) that lists FS-mutating syscalls and kills the process tree at a chosen stop'},
+  {'name': 'tplref', 'path': 'models/tplref/', 'serves_properties': ['C28','C29'], 'kind_free_text': 'reference semantics and static analyses (nullable, left recursion) of the TPL grammar language + index-addressable grammar enumerator'},
   {'name': 'engine', 'path': 'engine/', 'serves_properties': sorted(checks), 'kind_free_text': 'evidence/known-finding/replay plumbing, worker-subprocess pool with crash attribution, enumerators'},
  ],
  'checks': [], 'not_applicable': [],
